@@ -37,7 +37,7 @@ RULE = ("each run builds a chain of 1-4 components (real RateLimiter, AccessCont
         "of the runs uses start_server()'s own chain assembly. distinct = distinct (chain shape, "
         "decision vector, event signature); non-trivial = some component rejected, raised or was "
         "slow, or the request was titan")
-PROBES = ["chain_rejected", "chain_raised", "slow_component", "titan_with_chain",
+PROBES = ["policy_decisions_checked", "chain_rejected", "chain_raised", "slow_component", "titan_with_chain",
           "content_arrived_while_chain_undecided", "peer_left_while_chain_undecided",
           "client_cert_presented", "ipv6_peer", "real_handlers", "start_server_assembly",
           "timer_fired_while_chain_undecided", "flood_1000_pending_requests", "policy_from_toml"]
@@ -149,6 +149,28 @@ def gen_components(ch, sim, log):
         comps.append(Rec(sim, c, f"{i}:{d}", log))
         descr.append(d)
     return comps, descr
+
+
+_ACL_ALLOWED = {"v0": {"192.168.7.9", "203.0.113.77", "::1", "172.16.0.1"},
+                "v1": {"192.168.7.9", "::1"}, "v2": set(), "v3": {"203.0.113.77"}}
+_CA_WHITELIST = {"v2": "cli_rsa1", "v3": "cli_ed1", "v4": "cli_same1"}
+
+
+def policy_model(descr, path, ip, fp):
+    """Expected answer ('allow' or the two status digits) of a real policy component
+    for one request, from the configuration alone; None = not modelled."""
+    if descr.startswith("AccessControl("):
+        return "allow" if ip in _ACL_ALLOWED[descr[14:16]] else "53"
+    if descr.startswith("CertificateAuth("):
+        v = descr[16:18]
+        if v == "v0":
+            return "allow" if fp else "60"
+        if v == "v1":
+            return "60" if (path.startswith("/up/") and not fp) else "allow"
+        if not fp:
+            return "60"
+        return "allow" if fp == fx.fp(_CA_WHITELIST[v]) else "61"
+    return None
 
 
 def gen_conn(ch, i, upload_enabled):
@@ -317,6 +339,7 @@ def run_one(ch):
                 elif state["ca_v"] == 2:
                     toml.append('[[certificate_auth.paths]]\nprefix = "/"\nallowed_fingerprints = ["%s"]\n'
                                 % fx.fp("cli_rsa1"))
+
                 tpath = pathlib.Path(scratch, "server.toml")
                 tpath.write_text("\n".join(toml))
                 cfg = ServerConfig.from_toml(tpath)
@@ -410,6 +433,27 @@ def run_one(ch):
                 if verdict == "allow" and len(mine) < len(comps):
                     verdict = "undecided"
             t_decided = mine[-1]["t1"] if mine and verdict == "allow" else None
+            # the real policy components judged *this* request: its own path, the real
+            # peer address and the certificate actually presented (independent model of
+            # the few configured policies)
+            if c["valid"]:
+                fp_presented = fx.fp(c["cert"]) if (c["cert"] and mode == "pyopenssl") else None
+                for e in mine:
+                    if e["out"] is None or e["out"][0] not in ("allow", "deny"):
+                        continue
+                    want = policy_model(e["comp"].split(":", 1)[1], c.get("path", ""), c["ip"],
+                                        fp_presented)
+                    if want is None:
+                        continue
+                    got = e["out"][0] if e["out"][0] == "allow" else e["out"][1][:2]
+                    if got != want:
+                        res.stats["policy_decisions_checked"] += 1
+                        res.violate(f"C04/policy-not-applied-to-this-request/{site}",
+                                    f"component {e['comp']} answered {got!r} for path "
+                                    f"{c.get('path')!r}, peer {c['ip']}, certificate {c['cert']!r}: "
+                                    f"the configured policy gives {want!r}", **ctx)
+                    else:
+                        res.stats["policy_decisions_checked"] += 1
             if inv or other:
                 t_inv = (inv or other)[0][0]
                 if verdict is None:
